@@ -259,17 +259,20 @@ pub fn generate(seed: u64, grammars: &[Grammar]) -> Scenario {
                 let slot = forced.unwrap_or_else(|| live_slots[rng.below(live_slots.len())]);
                 let s = slots[slot].as_ref().unwrap();
                 // mostly a rule of the grammar the text was built for; sometimes any grammar
-                let gi = if rng.chance(14, 15) { s.g } else { enabled[rng.below(enabled.len())] };
+                // a very large input is only handed to the rule it was built for (a random rule of a random grammar on kilobytes
+                // of text can take exponential time in some repository grammars; termination is not this check's business)
+                let is_big = s.ops_left.is_some();
+                let gi = if is_big || rng.chance(14, 15) { s.g } else { enabled[rng.below(enabled.len())] };
                 let g = &grammars[gi];
                 let bs = boundaries(&s.text);
                 let len = s.text.len();
                 let (rule, a, b, whole);
-                let mode = rng.below(10);
+                let mode = if is_big { 0 } else { rng.below(10) };
                 if mode < 7 && !s.pieces.is_empty() {
                     let (hint, pa, pb) = s.pieces[rng.below(s.pieces.len())].clone();
-                    let use_hint = gi == s.g && rng.chance(6, 7) && hint != "*junk";
+                    let use_hint = is_big || (gi == s.g && rng.chance(6, 7) && hint != "*junk");
                     // after a stack-using parse prefer another stack rule on a piece (push-leaving op before peek op)
-                    rule = if use_hint && !(last_stack_parse && rng.chance(1, 2)) { hint } else { g.entries[rng.below(g.entries.len())].rule.to_string() };
+                    rule = if use_hint && (is_big || !(last_stack_parse && rng.chance(1, 2))) { hint } else { g.entries[rng.below(g.entries.len())].rule.to_string() };
                     a = pa;
                     b = pb;
                     whole = false;
@@ -388,7 +391,9 @@ pub fn generate(seed: u64, grammars: &[Grammar]) -> Scenario {
                     parses.retain(|p| p.1 != slot);
                     results.retain(|p| p.1 != slot);
                     // successor of exactly the same byte length in two cases out of three
-                    if !big && rng.chance(2, 3) {
+                    // (never after a very large input: kilobytes of padding are not an input any rule was written for, and some
+                    // repository grammars backtrack exponentially on them)
+                    if !big && old.text.len() <= 256 && rng.chance(2, 3) {
                         best = fit_length(&mut rng, best.0, best.1, old.text.len());
                     }
                     if rng.chance(1, 2) {
@@ -400,7 +405,7 @@ pub fn generate(seed: u64, grammars: &[Grammar]) -> Scenario {
                     }
                     ops.push(Op::DropInput { slot });
                 } else if let Some(want) = last_dropped_len {
-                    if !big && rng.chance(1, 2) {
+                    if !big && want <= 256 && rng.chance(1, 2) {
                         best = fit_length(&mut rng, best.0, best.1, want);
                     }
                 }
